@@ -359,7 +359,7 @@ func (s Exons) SplicedLen() int {
 // location match.  If and error occurs it returns the old slice (without the
 // new exons) and the error.
 func (s Exons) Add(exons ...Exon) (Exons, error) {
-	newSlice := append(s, exons...)
+	newSlice := append(s[:len(s):len(s)], exons...)
 	sort.Sort(newSlice)
 	for i, e := range newSlice {
 		if i != 0 && e.Start() < newSlice[i-1].End() {
